@@ -493,6 +493,12 @@ func intsCSV(l []int) string {
 type runner struct {
 	c *vh.Ctx
 	m *vh.Model
+	// regViol: what the regenerated facts hold against request-keyed registries ("" = nothing), quoted
+	// in the violations of the registry stream so that the failing input names the site
+	regViol string
+	// regDead: a forced schedule of the registry stream hung (reported as schedule:hang with its
+	// replay); the rest of that stream is skipped — every further case would wait out the same 20 s
+	regDead bool
 }
 
 // runBatch plays every case of the batch on one server, the solo runs on another.
@@ -947,6 +953,16 @@ func Run(c *vh.Ctx) {
 		}
 	}
 	rn := &runner{c: c, m: m}
+	if i := strings.Index(factsLine, "registryViolations=["); i >= 0 {
+		rest := factsLine[i+len("registryViolations=["):]
+		if j := strings.Index(rest, "] limits="); j > 0 {
+			names := strings.Split(rest[:j], ", ")
+			if len(names) > 3 {
+				names = append(names[:3], fmt.Sprintf("… (%d in all)", len(names)))
+			}
+			rn.regViol = strings.Join(names, ", ")
+		}
+	}
 	c.Res.Rule = "a scripted case (step language, value catalogue or depth catalogue) is non-trivial if it has ≥ 2 requests whose turns interleave; a load case if ≥ 2 requests were in flight; distinct = different programs/data/schedule"
 
 	if len(c.ReplayRaw) > 0 {
@@ -959,6 +975,8 @@ func Run(c *vh.Ctx) {
 			rn.replayValCase(c.ReplayRaw)
 		case "flight":
 			rn.replayFlightCase(c.ReplayRaw)
+		case "reg":
+			rn.replayRegCase(c.ReplayRaw)
 		case "load":
 			var lc loadCase
 			if err := json.Unmarshal(c.ReplayRaw, &lc); err != nil {
@@ -991,6 +1009,15 @@ func Run(c *vh.Ctx) {
 		}
 	}
 
+	if os.Getenv("C11_ONLY") == "probe" { // development aid: serve the requests of a file one by one
+		runProbe()
+		return
+	}
+	if os.Getenv("C11_ONLY") == "reg" { // development aid: only the registry stream
+		registryStreams(rn)
+		regLoadStreams(c)
+		return
+	}
 	if os.Getenv("C11_ONLY") == "flight" { // development aid: only the in-flight stream
 		flightStreams(rn, factsLine)
 		depthLoadStreams(c, flightLimits(factsLine))
@@ -1002,6 +1029,10 @@ func Run(c *vh.Ctx) {
 
 	// 0b. the in-flight stream: requests parked while they hold frames, sums around and beyond every limit
 	flightStreams(rn, factsLine)
+
+	// 0c. the registry stream: requests parked between attaching their per-request state (onFormat
+	// slot, attribute bag) and using it, while others attach, detach and finish
+	registryStreams(rn)
 
 	// 1. the negation witnesses of the property file, one server each
 	for _, w := range witnesses() {
